@@ -8,6 +8,10 @@
 #include <eav.h>
 #include <eav/auto_tld.h>
 #include "vf.h"
+#include "idnkit_res.h"
+#ifdef HAVE_LIBIDN
+#include <idna.h>
+#endif
 
 static unsigned long br_hash[3];
 static unsigned br_cnt[3];
@@ -47,6 +51,8 @@ static const char k_idnmsg[] = "idn-message";
 const char *idn2_strerror(int rc) { (void) rc; return k_idnmsg; }
 #elif defined(HAVE_LIBIDN)
 const char *idna_strerror(Idna_rc rc) { (void) rc; return k_idnmsg; }
+#elif defined(HAVE_IDNKIT)
+const char *idn_result_tostring(idn_result_t rc) { (void) rc; return k_idnmsg; }
 #endif
 
 static int s_rfc, s_allow; static bool s_tld, s_set;
